@@ -44,9 +44,15 @@ def wfB (C : Cfg) : Bool :=
   C.disconLine.all (fun l => decide (l < C.lines.length)) &&
   (List.range C.nets.length).all (wfNet C)
 
+/-- no element occurs twice -/
+def noDup : List Nat → Bool
+  | [] => true
+  | a :: as => !as.contains a && noDup as
+
 /-- additional structure of real configurations used for the second invariant of C05 (switch positions agree with lines):
 the disconnector list of a line is complete; a line carries exactly the breaker that sits on it; every disconnector on a
-line of a section is among the section's switches; a section that lists one disconnector of a line lists all of them -/
+line of a section is among the section's switches; a section that lists one disconnector of a line lists all of them;
+network line lists are duplicate-free, attached networks are microgrids, every breaker belongs to a network -/
 def wfB2 (C : Cfg) : Bool :=
   (List.range C.disconLine.length).all (fun d => (lineOf C (C.disconLine.getD d 0)).discons.contains d) &&
   (List.range C.cbLine.length).all (fun c => decide (C.cbLine.getD c 0 < C.lines.length) && (lineOf C (C.cbLine.getD c 0)).cb == some c) &&
@@ -57,7 +63,11 @@ def wfB2 (C : Cfg) : Bool :=
     (secOf C k).switches.all (fun sw =>
       match sw with
       | .discon d => (lineOf C (C.disconLine.getD d 0)).discons.all (fun d' => (secOf C k).switches.contains (.discon d'))
-      | .breaker _ => true))
+      | .breaker _ => true)) &&
+  -- used for C06 (return to normal): a network lists each of its lines once, the networks attached to a distribution
+  -- network are microgrids, and every circuit breaker is the breaker of some network
+  (List.range C.nets.length).all (fun n => noDup (netOf C n).lines && (netOf C n).children.all (fun m => (netOf C m).mode.isSome)) &&
+  (List.range C.cbLine.length).all (fun c => (List.range C.nets.length).any (fun n => (netOf C n).cb == c))
 
 /-- all state vectors have the length the configuration prescribes -/
 def sizeOK (C : Cfg) (s : St) : Bool :=
